@@ -91,3 +91,10 @@ pub fn str_len(s: &str) -> (r: usize) ensures r == spec_utf8_len(s@) { s.len() }
 pub assume_specification<T, U, F: FnOnce(T) -> U> [Option::<T>::map_or] (o: Option<T>, default: U, f: F) -> (r: U)
     requires o matches Some(x) ==> f.requires((x,))
     ensures match o { Some(x) => f.ensures((x,), r), None => r == default };
+
+// `x.into()` for a caller-chosen `U: Into<String>` (rule R25): a pure function of x
+pub uninterp spec fn spec_into<U, T>(u: U) -> T;
+pub open spec fn spec_into_string<U>(u: U) -> String { spec_into::<U, String>(u) }
+#[verifier::external_body]
+pub fn vx_into<U: Into<T>, T>(u: U) -> (r: T) ensures r == spec_into::<U, T>(u) { u.into() }
+pub fn vx_into_string<U: Into<String>>(u: U) -> (r: String) ensures r == spec_into_string(u) { vx_into::<U, String>(u) }
